@@ -80,32 +80,37 @@ package phase5
 
 //@ spec axisAligned(p [2]float64, q [2]float64) bool = p[0] == q[0] || p[1] == q[1]
 
-// orthoDone(r): all segments horizontal or vertical, ends at the anchors
-//@ spec orthoDone(r routableEdge) bool =
+// orthoEnds(r): the route starts and ends at the anchors (C05); orthoAxis(r): every segment is horizontal or vertical (C06).
+// The two are separate clauses with views, so that a change to one aspect is reported under the property it breaks.
+//@ spec orthoEnds(r routableEdge) bool =
 //@   len(r.Points) >= 2
-//@   && (forall t int :: 0 <= t && t < len(r.Points) - 1 ==> axisAligned(r.Points[t], r.Points[t+1]))
 //@   && r.Points[0][0] == startX(r.ns[0]) && r.Points[0][1] == startY(r.ns[0])
 //@   && r.Points[len(r.Points)-1][0] == startX(r.ns[len(r.ns)-1]) && r.Points[len(r.Points)-1][1] == endY(r.ns[len(r.ns)-1])
+//@ spec orthoAxis(r routableEdge) bool =
+//@   forall t int :: 0 <= t && t < len(r.Points) - 1 ==> axisAligned(r.Points[t], r.Points[t+1])
 
 //@ func execOrthoRouting
 //@   requires g != nil && routesOK(routes) && params.LayerSpacing >= 0.0
 //@   requires forall i int :: 0 <= i && i < len(routes) ==> routes[i].Points == nil
 //@   requires forall i int :: 0 <= i && i < len(routes) ==> orthoRouteOK(g, routes[i], params.LayerSpacing)
 //@   modifies Edge.Points, Elems[[2]float64], alloc
-//@   ensures[ortho] forall i int :: 0 <= i && i < len(routes) ==> orthoDone(routes[i])
+//@   ensures[ends|C05,C06] forall i int :: 0 <= i && i < len(routes) ==> orthoEnds(routes[i])
+//@   ensures[ortho|C06] forall i int :: 0 <= i && i < len(routes) ==> orthoAxis(routes[i])
 //@   loop range(routes)#1 index c
 //@     invariant forall i int :: c <= i && i < len(routes) ==> routes[i].Points == nil
-//@     invariant forall i int :: 0 <= i && i < c ==> allocatedArr(routes[i].Points)
-//@     invariant forall i int :: 0 <= i && i < c ==> orthoDone(routes[i])
+//@     invariant forall i int :: 0 <= i && i < c ==> allocatedArr(routes[i].Points) && arr(routes[i].Points) != 0
+//@     invariant[|C05,C06] forall i int :: 0 <= i && i < c ==> orthoEnds(routes[i])
+//@     invariant[|C06] forall i int :: 0 <= i && i < c ==> orthoAxis(routes[i])
 //@   loop for(i<len(r.ns))#1
 //@     invariant 1 <= i && i <= len(r.ns)
 //@     invariant forall k int :: c < k && k < len(routes) ==> routes[k].Points == nil
-//@     invariant forall k int :: 0 <= k && k < c ==> allocatedArr(routes[k].Points) && arr(routes[k].Points) != arr(r.Points)
-//@     invariant forall k int :: 0 <= k && k < c ==> orthoDone(routes[k])
+//@     invariant forall k int :: 0 <= k && k < c ==> allocatedArr(routes[k].Points) && arr(routes[k].Points) != 0 && arr(routes[k].Points) != arr(r.Points)
+//@     invariant[|C05,C06] forall k int :: 0 <= k && k < c ==> orthoEnds(routes[k])
+//@     invariant[|C06] forall k int :: 0 <= k && k < c ==> orthoAxis(routes[k])
 //@     invariant len(r.Points) == 4 * (i - 1) && (i > 1 ==> allocatedArr(r.Points)) && (i == 1 ==> r.Points == nil)
-//@     invariant forall t int :: 0 <= t && t < len(r.Points) - 1 ==> axisAligned(r.Points[t], r.Points[t+1])
-//@     invariant i > 1 ==> r.Points[0][0] == startX(r.ns[0]) && r.Points[0][1] == startY(r.ns[0])
-//@     invariant i > 1 ==> r.Points[len(r.Points)-1][0] == startX(r.ns[i-1]) && r.Points[len(r.Points)-1][1] == endY(r.ns[i-1])
+//@     invariant[|C06] forall t int :: 0 <= t && t < len(r.Points) - 1 ==> axisAligned(r.Points[t], r.Points[t+1])
+//@     invariant[|C05,C06] i > 1 ==> r.Points[0][0] == startX(r.ns[0]) && r.Points[0][1] == startY(r.ns[0])
+//@     invariant[|C05,C06] i > 1 ==> r.Points[len(r.Points)-1][0] == startX(r.ns[i-1]) && r.Points[len(r.Points)-1][1] == endY(r.ns[i-1])
 
 //@ func orderedNodes
 //@   requires e != nil && e.From != nil && e.To != nil
